@@ -416,6 +416,51 @@ def r0n_nested_fn_brace(lines, origin, repo, relfile):
     return out, oo, notes
 
 
+def r9_iter_inherent(lines, origin, repo, relfile):
+    """impl<G> Iterator for X<..> where .. { type Item = I; fn next(&mut self) -> Option<Self::Item> { B } }
+         ->  impl<G> X<..> where .. { fn next(&mut self) -> Option<I> { B } }
+    The body B is untouched.  Verus does not let a trait-method implementation declare `requires`; as an
+    inherent method the same body is verified against a contract with a precondition (the iterator's
+    well-formedness, established by its constructor and preserved by `next`).  Refuses anything but an
+    impl block consisting of exactly `type Item = ..;` and `fn next(&mut self) -> Option<Self::Item>`."""
+    text = '\n'.join(lines)
+    mask = rustscan.code_mask(text)
+    items = rustscan.scan_items(text, 0, len(text), mask)
+    impls = [it for it in items if it.kind == 'impl']
+    if len(impls) != 1 or not re.match(r'impl(<[^{]*?>)? Iterator for ', impls[0].header):
+        raise RewriteError("R9: expected exactly one `impl<..> Iterator for X` in the section (%s)" % relfile)
+    im = impls[0]
+    subs = rustscan.scan_items(text, im.body_open + 1, im.end - 1, mask)
+    heads = [re.sub(r'\s+', ' ', x.header.strip()) for x in subs]
+    tys = [h for h in heads if h.startswith('type ')]
+    fns = [h for h in heads if re.match(r'fn ', h)]
+    if len(subs) != 2 or len(tys) != 1 or len(fns) != 1:
+        raise RewriteError("R9: impl block is not {type Item; fn next} (%s): %r" % (relfile, heads))
+    if not re.match(r'fn next\(&mut self\) -> Option<Self::Item>$', fns[0]):
+        raise RewriteError("R9: unexpected method shape %r (%s)" % (fns[0], relfile))
+    out, oo, notes = [], [], []
+    item_ty = None
+    hdr_done = False
+    for l, o in zip(lines, origin):
+        mm = re.match(r'^(\s*)type Item = (.*);\s*$', l)
+        if mm and item_ty is None:
+            item_ty = mm.group(2).strip()
+            continue                      # the associated type line is dropped
+        if not hdr_done and re.match(r'^\s*impl\b.*\bIterator for ', l):
+            l2 = re.sub(r'\bIterator for ', '', l, count=1)
+            out.append(l2); oo.append(o); hdr_done = True
+            continue
+        if re.search(r'\bSelf::Item\b', l):
+            if item_ty is None or not re.match(r'^\s*fn next\(&mut self\) -> Option<Self::Item>', l):
+                raise RewriteError("R9: `Self::Item` outside the `fn next` signature at %s:%d" % (relfile, o))
+            l = l.replace('Self::Item', item_ty)
+        out.append(l); oo.append(o)
+    if item_ty is None or not hdr_done:
+        raise RewriteError("R9: header / `type Item` line not found on single lines (%s)" % relfile)
+    notes.append("R9 %s:%d `impl Iterator for ..` verified as an inherent impl (`type Item = %s` substituted into `fn next`); body unchanged" % (relfile, origin[0], item_ty))
+    return out, oo, notes
+
+
 def r8_loop_brace(lines, origin, repo, relfile):
     """while C {  /  for P in E {  /  loop {   ->  body brace on its own line (whitespace only), so
     that invariants can be spliced between the loop head and its body"""
@@ -631,6 +676,7 @@ def r6_for_continue(lines, origin, repo, relfile):
 
 RULES = {
     'R8': r8_loop_brace,
+    'R9': r9_iter_inherent,
     'R0': r0_name_return,
     'R0n': r0n_nested_fn_brace,
     'R1': r1_stepby,
